@@ -3387,8 +3387,9 @@ AUTHOR
 int32
 HMCPcloseAID(accrec_t *access_rec /* IN:  access record of file to close */)
 {
-    chunkinfo_t *info      = NULL; /* special information record */
-    int32        ret_value = SUCCEED;
+    chunkinfo_t *info        = NULL;  /* special information record */
+    intn         sync_failed = FALSE; /* whether a dirty chunk could not be written */
+    int32        ret_value   = SUCCEED;
 
     /* check args */
     info = (chunkinfo_t *)access_rec->special_info;
@@ -3399,8 +3400,9 @@ HMCPcloseAID(accrec_t *access_rec /* IN:  access record of file to close */)
        If no more references to that, free the record */
     if (--(info->attached) == 0) {
         if (info->chk_cache != NULL) {
-            /* Sync chunk cache */
-            mcache_sync(info->chk_cache);
+            /* Sync chunk cache; remember a failure, finish the clean up, then report it */
+            if (mcache_sync(info->chk_cache) == RET_ERROR)
+                sync_failed = TRUE;
 #ifdef STATISTICS
             /* cache statistics if 'mcache.c' complied with -DSTATISTICS */
             mcache_stat(info->chk_cache);
@@ -3436,6 +3438,9 @@ HMCPcloseAID(accrec_t *access_rec /* IN:  access record of file to close */)
 
         free(info);
         access_rec->special_info = NULL;
+
+        if (sync_failed)
+            HGOTO_ERROR(DFE_WRITEERROR, FAIL);
     } /* attached to info */
 
 done:
@@ -3459,8 +3464,9 @@ AUTHOR
 static int
 HMCPendaccess(accrec_t *access_rec /* IN:  access record to close */)
 {
-    filerec_t *file_rec  = NULL; /* file record */
-    int        ret_value = SUCCEED;
+    filerec_t *file_rec     = NULL;  /* file record */
+    intn       close_failed = FALSE; /* whether flushing the element failed */
+    int        ret_value    = SUCCEED;
 
     /* validate argument */
     if (access_rec == NULL)
@@ -3472,9 +3478,10 @@ HMCPendaccess(accrec_t *access_rec /* IN:  access record to close */)
         HGOTO_ERROR(DFE_ARGS, FAIL);
 
     /* detach the special information record.
-       If no more references to that, free the record */
+       If no more references to that, free the record.
+       The access is ended in any case; a failure is reported afterwards */
     if (HMCPcloseAID(access_rec) == FAIL)
-        HGOTO_ERROR(DFE_CANTCLOSE, FAIL);
+        close_failed = TRUE;
 
     /* update file and access records */
     if (HTPendaccess(access_rec->ddid) == FAIL)
@@ -3485,6 +3492,10 @@ HMCPendaccess(accrec_t *access_rec /* IN:  access record to close */)
 
     /* free the access record */
     HIrelease_accrec_node(access_rec);
+    access_rec = NULL;
+
+    if (close_failed)
+        HGOTO_ERROR(DFE_CANTCLOSE, FAIL);
 
 done:
     if (ret_value == FAIL) { /* Error condition cleanup */
